@@ -464,6 +464,7 @@ func doInvoke(execCtx *rapidContext, invokeRequest *interop.Invoke, mx *invokeMe
 				mx.rendererMetrics = renderer.GetMetrics()
 			}()
 
+			verifAt("invoke.beforeSetRenderer")
 			execCtx.renderingService.SetRenderer(renderer)
 			if extensions.AreEnabled() {
 				log.Debug("Release agents conditions")
